@@ -304,7 +304,7 @@ var c26StCtxTable = [][3]string{
 	{"fn", "c", "g() { %M; }; g"},
 	{"subshell", "cl", "( %M )"},
 	{"cmdsubst", "cl", "r=$( %M ); echo \"r=$r\""},
-	{"cmdsubst-arg", "", "echo \"r=$( %M )\""},
+	{"cmdsubst-arg", "", "g() { echo \"$1\"; }; g \"r=$( %M )\""}, // (not `echo "r=$( )"`: the broad class printf-echo-details-see-C24 would absorb it)
 	{"pipe-first", "cl", "{ %M; } | while read ll; do echo \"<$ll>\"; done"},
 	{"pipe-mid", "c", "true | { %M; } | while read ll; do echo \"<$ll>\"; done"},
 	{"pipe-last", "cl", "true | { %M; }"}, // runs in the parent shell in this interpreter: recorded finding class
